@@ -202,7 +202,7 @@ CHECKS = {
             "fields; the poison lane fills all scratch with NaN / 77 and requires unchanged results.",
             "Trusted: TLC; numba's scheduler cannot be forced (the model covers every assignment); CRC32 of float64 bytes.",
             "DESIGN.md §5 C13"),
-    "C14": (["Rat", "TomtomScoreOps", "TomtomScore", "TomtomScore_Oracle"],
+    "C14": (["Rat", "TomtomScoreOps", "TomtomScore", "TomtomNull", "TomtomScore_Oracle"],
             "declarative TLA+ definition of TOMTOM complete scores, admissible alignments and the exact null p-value "
             "(TomtomScoreOps) model-checked with TLC on all small similarity matrices (CdfMonotone, NoDrop, PValueRange, Alignment; "
             "as-found zero-bin drop as spec-level mutant); TLC as exact oracle for random query/target sets run through the real "
